@@ -210,11 +210,31 @@ def observe_all(ctx, obj, cases, batch_size=120):
     return obs
 
 
+def target_probe(ctx, obj):
+    """targ.c's per-target facts observed directly.  While the PlainCharRaw defect is present a plain character constant never
+    goes through `char`, so the signedness of char is invisible in literal values; these two conversions make it visible.
+    Expected values are the spec's CharSigned/WcharSigned as recovered from its verdicts on '\xFF' and L'\xFFFFFFFF'."""
+    src = b"int cs = (char)-1 < 0;\nint ws = (typeof(L'a'))-1 < 0;\nint wz = sizeof(L'a');\n"
+    for t in vlib.TARGETS:
+        rc, out, err = vlib.cproc(obj, src, t)
+        got = None
+        if rc == 0:
+            data = ilparse.data_by_name(ilparse.parse(out))
+            got = {k: _num(ilparse.data_image(data[k])[0]) for k in ("cs", "ws", "wz")}
+        exp = {"cs": int(_CHAR_SIGNED[t]), "ws": int(_WCHAR_SIGNED[t]), "wz": 4}
+        ctx.count("targ-probe-" + t)
+        if got != exp:
+            ctx.violation("targ:%s:char-wchar-signedness" % t, "target %s: expected %s observed %s" % (t, exp, got),
+                          {"targ": t, "source": src.decode(), "expected": exp, "observed": got})
+
+
 def sanitizer_pass(ctx, cases, obs):
     """The accepted cases once more through the ASan+UBSan build (stringconcat sizes its buffer from strlen of the tokens;
     decodechar/utf8dec read ahead): the projection must be the same and no sanitizer report may appear."""
     san = private_build(ctx, "asan")
     idx = [i for i, c in enumerate(cases) if c["decl"]["o"] == "ok" and c["impl"]["o"] == "ok" and obs[i]["o"] == "ok"]
+    if ctx.quick:
+        idx = idx[::2]                     # quick tier: every other accepted case
     by_t = {}
     for i in idx:
         by_t.setdefault(cases[i]["targ"], []).append(i)
@@ -559,7 +579,8 @@ def run(ctx):
         raise vlib.MachineryError("expected one VCASE per case state: %d vs %d" % (len(cases), r.distinct - 90))
     vacuity_guard(ctx, cases, cfg)
     audit_targets(ctx, cases)
-    audit(ctx, cases, 600 if ctx.quick else 6000)
+    audit(ctx, cases, 400 if ctx.quick else 6000)
+    target_probe(ctx, obj)
     obs = observe_all(ctx, obj, cases)
     judge(ctx, cases, obs, stats)
     sanitizer_pass(ctx, cases, obs)
@@ -584,7 +605,7 @@ def run(ctx):
                 rnd.append(c)
     if len(rnd) < 1000:
         raise vlib.MachineryError("random generator produced only %d distinct literals" % len(rnd))
-    audit(ctx, rnd, 300 if ctx.quick else 3000)
+    audit(ctx, rnd, 200 if ctx.quick else 3000)
     obs2 = observe_all(ctx, obj, rnd)
     judge(ctx, rnd, obs2, stats)
     sanitizer_pass(ctx, rnd, obs2)
